@@ -359,6 +359,52 @@ def deflate_raw_encode(data, level=6):
     return c.compress(data) + c.flush()
 
 
+def deflate_stored_block(data, final=False, pad=0):
+    """RFC 1951 §3.2.4: one stored block starting at a byte boundary: BFINAL, BTYPE=00, then the bits up to the next byte
+    boundary (five here; a decoder ignores them, `pad` chooses them), LEN, NLEN = ~LEN, LEN literal bytes"""
+    assert len(data) <= 65535 and 0 <= pad < 32
+    n = len(data)
+    return bytes([(1 if final else 0) | (pad << 3), n & 255, n >> 8, (n & 255) ^ 255, (n >> 8) ^ 255]) + bytes(data)
+
+
+def zlib_header_like(b0, b1):
+    """RFC 1950 §2.2: CM = 8, CINFO <= 7, (CMF*256 + FLG) a multiple of 31"""
+    return (b0 & 0x0f) == 8 and (b0 >> 4) <= 7 and (b0 * 256 + b1) % 31 == 0
+
+
+def deflate_raw_zlib_lookalike(data, rng, tail="stored"):
+    """a valid RAW deflate stream of `data` whose first two bytes satisfy the zlib header test: it starts with a non-final stored
+    block whose ignored padding bits are 00001..01111 (low bit set) and whose LEN low byte completes the check; the rest of the data follows in
+    stored blocks with random padding bits (tail="stored") or as Huffman blocks written by python zlib (tail="huffman").
+    None if len(data) admits no such first block."""
+    opts = []
+    for pad in range(1, 16, 2):
+        b0 = pad << 3
+        for b1 in range(256):
+            if zlib_header_like(b0, b1):
+                ns = [n for n in range(b1, min(len(data), 65535) + 1, 256)]
+                if ns:
+                    opts.append((pad, ns))
+    if not opts:
+        return None
+    pad, ns = rng.choice(opts)
+    n = rng.choice(ns)
+    out = deflate_stored_block(data[:n], False, pad)
+    rest = data[n:]
+    if tail == "huffman":
+        return out + deflate_raw_encode(rest, rng.choice([1, 6, 9]))
+    blocks = []
+    while rest:
+        k = rng.randint(0, min(len(rest), 300)) if rng.random() < 0.7 else min(len(rest), 65535)
+        blocks.append(rest[:k])
+        rest = rest[k:]
+    if not blocks or rng.random() < 0.5:
+        blocks.append(b"")                       # an empty final block
+    for j, blk in enumerate(blocks):
+        out += deflate_stored_block(blk, j == len(blocks) - 1, rng.randrange(32))
+    return out
+
+
 def zlib_decode(data):
     try:
         return zlib.decompress(data)
